@@ -1655,8 +1655,16 @@ func (f *Facts) sumFacts(g *Graph, lhs, rhs ast.Expr) {
 			return
 		}
 		if len(callsIn(o)) > 0 {
-			if c, isCall := ast.Unparen(o).(*ast.CallExpr); !isCall || exprStr(c.Fun) != "len" {
+			c, isCall := ast.Unparen(o).(*ast.CallExpr)
+			if !isCall {
 				return
+			}
+			if exprStr(c.Fun) != "len" {
+				// an argument-less observer on a variable / field path (q.Attempts())
+				sel, isSel := ast.Unparen(c.Fun).(*ast.SelectorExpr)
+				if !isSel || len(c.Args) != 0 || !isFieldPath(sel.X) || len(callsIn(o)) != 1 {
+					return
+				}
 			}
 		}
 	}
